@@ -5,6 +5,8 @@ AXTYPE on the four base classes x {cartesian, spherical, mix, lincomb}; FLOW dis
 import ast
 import itertools
 
+import sympy as sp
+
 from ..assembly import Assembly, BASES, GROUPS, leaves, check_block, expected_kernel_calls
 from ..axtype import Arr, Shell, AxTypeError, Raised, dim, show_axes, show_axis
 from ..flow import check_wrapper_dispatch
@@ -361,7 +363,7 @@ def check_asym_wrapper(repo, f, R):
                 expected=f"[shell.coord_type for shell in {basis}]", found=how)
 
 
-def check_nuc_wrapper(repo, f, R):
+def check_nuc_wrapper(repo, f, R, inputs_rule=False):
     fn = f.node
     rets = [n for n in ast.walk(fn) if isinstance(n, ast.Return)]
     if len(rets) != 1:
@@ -376,6 +378,26 @@ def check_nuc_wrapper(repo, f, R):
     got = [ast.unparse(a) for a in inner.args] + [f"{k.arg}={ast.unparse(k.value)}" for k in inner.keywords]
     R.check(got == [p[0], p[1], p[2], "transform=transform"], "DISPATCH", f.site, "point_charge_integral(" + ", ".join(got) + ")",
             "all four arguments must be forwarded to point_charge_integral", where=f.where(inner), expected=[p[0], p[1], p[2], "transform=transform"], found=got)
+    # the forwarded names must still be the caller's arrays: any rebinding on any path has to be value-preserving; a boolean
+    # filter applied to coordinates and charges alike may only drop zero charges (the sum is linear in the charges)
+    from ..formula import rebound_inputs, strip_restrict, selection_keeps_all_relevant, classify_rebinding
+    rebound, syms = rebound_inputs(f, set(p[:3]) | {"transform"}, rule="DISPATCH") if inputs_rule else ([], {})
+    for name, val, st in rebound:
+        core, conds = strip_restrict(val) if hasattr(val, "atoms") else (val, [])
+        kind = classify_rebinding(core, syms[name])
+        if kind == "unknown":
+            raise AnalysisError("DISPATCH", f"`{ast.unparse(st)[:80]}` rebinds the forwarded input `{name}` to a value that is not modelled", f.where(st))
+        same = kind == "same"
+        if same and conds:
+            zsym = syms[p[2]]
+            conds = [c.subs(syms[name], zsym) if name == p[2] else c for c in conds]
+            same = all(selection_keeps_all_relevant(c, zsym) for c in conds)
+            why = f"`{name}` is filtered by `{sp.And(*conds)}` before the integrals are summed: a point charge that does not satisfy it " \
+                  "is left out of the nuclear attraction although its charge is not zero"
+        else:
+            why = f"`{name}` is replaced by another value before it reaches point_charge_integral"
+        R.check(same, "DISPATCH", f.site, "forwarded input " + ast.unparse(st)[:80], why, where=f.where(st),
+                expected=f"{name} forwarded unchanged (or only zero charges skipped)", found=str(val)[:100])
     axis = [ast.unparse(k.value) for k in v.keywords if k.arg == "axis"] + [ast.unparse(a) for a in v.args[1:]]
     R.check(axis == ["2"], "DISPATCH", f.site, "np.sum(..., axis=2)", "the nuclear attraction is the sum over the point-charge axis (axis 2)",
             where=f.where(v), expected="axis=2", found=axis)
